@@ -3,4 +3,8 @@ from .c10 import run_c11
 
 
 def run(ck):
+    ck.rule('C11.w', 'the instance records its data size, addresses and checksum size at full width and consistently (C10.b re-evaluated): an image is not silently cut to a narrower field')
     run_c11(ck)
+    from .common import reevaluate
+    reevaluate(ck, 'C11.w', 'c10', lambda r, k: r == 'C10.b' and ('width' in k or 'layout' in k),
+               'store, validate and fetch work on the size and addresses the set-up functions recorded')
